@@ -27,6 +27,11 @@ def make_cfg(**kw):
     return c
 
 
+class ReadInterrupted(BaseException):
+    """What gevent.Timeout / eventlet.Timeout are to a blocked read: a BaseException raised out of recv() by the application's own timer
+    (`with gevent.Timeout(t, False): environ['wsgi.input'].read()`), after which the application answers normally."""
+
+
 class CutSock:
     """Server end of a simulated connection (read side only).
 
@@ -37,7 +42,8 @@ class CutSock:
            (the peer keeps repeating `filler` for ever - the lazy-peer meter of C12)
     """
 
-    def __init__(self, data, cuts=(), end="eof", filler=b"", meter_cap=None, lazy_chunk=8192):
+    def __init__(self, data, cuts=(), end="eof", filler=b"", meter_cap=None, lazy_chunk=8192, interrupt_at=None):
+        self.interrupt_at = interrupt_at      # the n-th recv() does not return: a timer of the application fires while it is blocked there
         self.data = data
         self.cuts = list(cuts)
         self.ci = 0
@@ -52,6 +58,9 @@ class CutSock:
 
     def recv(self, n):
         self.recvs += 1
+        if self.interrupt_at is not None and self.recvs == self.interrupt_at:
+            self.interrupt_at = None
+            raise ReadInterrupted()
         if self.pos >= len(self.data):
             if self.end == "eof":
                 self.eof_recvs = getattr(self, "eof_recvs", 0) + 1
@@ -114,6 +123,8 @@ def observe(cfg, data, cuts=(), end="eof", peer=("10.0.0.9", 4321), max_requests
             req = next(parser)
         except StopIteration:
             return obs, ("end",), sock
+        except ReadInterrupted:
+            return obs, ("interrupted", phase), sock
         except Wedged:
             return obs, ("wedged", phase), sock
         except NoMoreData:
@@ -142,7 +153,7 @@ def observe(cfg, data, cuts=(), end="eof", peer=("10.0.0.9", 4321), max_requests
             return obs, ("reset",), sock
         except HarnessError:
             raise
-        except Exception as e:
+        except (Exception, ReadInterrupted) as e:
             # An application may catch what wsgi.input raised and answer normally; the worker then asks the parser for the next request
             # of the connection.  A stream whose body framing was broken has no "next request": record what the parser does then.
             after = None
